@@ -445,8 +445,8 @@ theorem initQub_exit (P : Problem α) (pr : Params α) (stop : Nat → Bool) (f 
 /-- Calls made before the main loop: `2` (finite-difference Lipschitz estimate) or `1`
     (`ψ, ∇ψ` at `x₀`), `2` for the first proximal-gradient step, `2` per initial step-size backtrack. -/
 theorem initState_ticks (P : Problem α) (d0 : D) (pr : Params α) (stop : Nat → Bool) (x0 gV : Vec α)
-    (gS : α) :
-    match initState P d0 pr stop x0 gV gS with
+    (gS iS : α) :
+    match initState P d0 pr stop x0 gV gS iS with
     | .inl t => t ≤ 2
     | .inr s => s.tick = (if pr.L0 ≤ 0 then 2 else 1) + 2 + 2 * s.stats.stepsizeBacktracks := by
   unfold initState
